@@ -667,6 +667,11 @@ func isNewMaster(cand, exist *spb.Uint128) (bool, bool, error) {
 	if cand.High > exist.High {
 		return true, false, nil
 	}
+	if cand.High < exist.High {
+		// The election ID is a 128-bit value, a candidate with a lower high word
+		// is lower regardless of the low word.
+		return false, false, nil
+	}
 	if cand.Low > exist.Low {
 		return true, false, nil
 	}
